@@ -1220,10 +1220,14 @@ class TrajectoryStore:
         if self.mode == self.FileMode.APPEND:
             self._next_index = len(base_nc_file.traj_dim[0])
 
-        # Set up index information.
+        # Set up index information. An existing file holds at least one
+        # trajectory, so whether the store is indexable is already decided:
+        # it has an index group exactly if its trajectories carry flight IDs.
         if '_index' in base_nc_file.dataset[0].groups:
             self.index_group = base_nc_file.dataset[0].groups['_index']
             self.indexable = True
+        else:
+            self.indexable = False
 
         # Open any associated NetCDF files.
         for name in self.associated_files:
